@@ -505,10 +505,21 @@ Proof.
   intros (ru & H1 & H2 & H3 & H4 & H5 & H6 & H7 & H8 & H9 & H10 & H11 & H12 & H13 & H14)
          (R1 & R2 & R3 & R4 & R5 & R6 & R7 & R8 & R9 & R10).
   destruct (R10 ru H1) as [Q1 Q2].
-  apply (mk_SyncP _ _ _ ru); cbn; auto; try congruence; try lia.
+  apply (mk_SyncP _ _ _ ru); cbn.
+  - exact H1.
+  - clear -H2 Q1. lia.
+  - reflexivity.
+  - exact R1.
+  - congruence.
+  - congruence.
+  - congruence.
   - intros U. rewrite R3. auto.
   - intros G. rewrite R5. auto.
   - intros B. rewrite R7. auto.
+  - congruence.
+  - clear -H11 H12 R8 R9. lia.
+  - exact Q2.
+  - intros H. congruence.
 Qed.
 
 Lemma reachp_inv c s t last : cfg_ok c -> ReachP c s t last ->
